@@ -1,16 +1,18 @@
 """C17 — malformed inputs are rejected at assignment, valid ones stored faithfully"""
-from corr import valid_family
+from corr import callargs_family, valid_family
 from oracles import c17 as oracle
 
-GEN = ["Attr"]
-LEAN_TARGETS = ["MagpyVerif.Props.C17"]
-PROPS = ["MagpyVerif.Props.C17"]
+GEN = ["Attr", "Setters", "NpNames"]
+LEAN_TARGETS = ["MagpyVerif.Props.C17", "MagpyVerif.Props.C17b"]
+PROPS = ["MagpyVerif.Props.C17", "MagpyVerif.Props.C17b"]
 
 
 def run(ctx, model_ok):
     if ctx.driver_ok:
         st = valid_family.run_stream(ctx, ctx.scale(400, 20000))
         ctx.cov["correspondence"] = st
+        ca = callargs_family.run_stream(ctx, ctx.scale(300, 6000))
+        ctx.cov["correspondence_callargs"] = ca
     budget = 3 if len(ctx.broken) else 1
     fails, ost = oracle.sweep(ctx, ctx.scale(1, 12) * budget)
     ctx.failing += fails
@@ -34,27 +36,49 @@ def run(ctx, model_ok):
                             "complex, strings, objects, int/float/numpy scalars, nested lists/tuples incl. ragged and empty, ndarrays incl. 0-d and empty) "
                             "aimed at each validator's documented shape with one defect; distinct = (validator, result, value) triples")
         ctx.cov["samples"] = st.pop("samples") + ctx.cov["samples"]
-    ctx.cov["not_shown"] = ["field_func, style arguments, in_out / check_* mode strings of TriangularMesh: grammar oracle only; pixel_agg (which numpy names are reductions) is not modelled: "
-                            "observed — foreign AttributeError / TypeError for bad names (pinned by tests/test_getBH_level2.py), 'any'/'all' refused, 'argmax'/'ndim'/'size' accepted",
-                            "np.array(x) / np.array(arr, dtype=float) are assumed external functions (Model/Validators.lean header): non-integer floats, inf, bytes, integers beyond int64, "
-                            "Fraction/Decimal (object dtype holding numbers only), object-dtype ndarrays, objects with __array__, nestings deeper than numpy's axis limit are outside the "
-                            "modelled grammar (object ndarrays with None rows / None entries are refused by the code for every attribute, Polyline.vertices included: oracle values)",
+    if "correspondence_callargs" in ctx.cov:
+        ca = ctx.cov["correspondence_callargs"]
+        ctx.cov["evaluations"] += ca["cases"]
+        ctx.cov["distinct_nontrivial"] += ca["distinct"]
+        ctx.cov["traces_validated_against_impl"] += ca["cases"]
+        ctx.cov["rule"] += ("; valid stream also: every numpy scalar type (int8..uint64, float16..longdouble) for every validator of a scalar argument and inside vectors, "
+                            "object-dtype ndarrays (0-d, empty, with None / string / complex / bool entries) for every validator of an array argument; callargs stream: "
+                            "check_format_pixel_agg on every name of dir(numpy) + the later axis= use in getB, validate_field_func / field_func setter and constructor on generated "
+                            "functions (argument names, result kinds for B and H, raising), _validate_mode_arg + its effect on an open mesh, in_out on a Tetrahedron and the "
+                            "TriangularMesh of the same points, sumup / squeeze truth values, style argument (setter, constructor with / without style_* keywords, first access), "
+                            "sources constructed without dimension / excitation then getB / getH / magpy.getB; distinct = (command, result, input) triples")
+        ctx.cov["samples"] = ca.pop("samples") + ctx.cov["samples"]
+    ctx.cov["not_shown"] = ["np.array(x) / np.array(arr, dtype=float) are assumed external functions (Model/Validators.lean header): non-integer floats, inf, bytes, integers beyond int64, "
+                            "Fraction/Decimal (object dtype holding numbers only), objects with __array__, nestings deeper than numpy's axis limit are outside the "
+                            "modelled grammar; object-dtype ndarrays are handed over by the stream as the realisation of a rectangular nesting (the model treats both alike; None rows are "
+                            "separators only inside lists / tuples given to Polyline.vertices)",
                             "full-strength 'never a foreign error' is false of the faithful model for check_format_input_vector2 (ValueError, pinned by a test: witness vector2_bad_shape_is_foreign, "
-                            "known finding) and check_getBH_output_type (ValueError, pinned by tests/test_getBH_interfaces.py::test_getBH_bad_output_type: output_rejection_is_foreign); "
-                            "complex scalars and complex / out-of-range angles were repaired in /repo (scalar_never_foreign, angle_error_is_bad)",
+                            "known finding), check_getBH_output_type (ValueError, pinned: output_rejection_is_foreign), check_format_pixel_agg (AttributeError pinned by "
+                            "tests/test_getBH_level2.py, TypeError: pixel_agg_rejection_is_foreign), the TriangularMesh mode arguments (ValueError, promised by the docstrings: "
+                            "mode_rejection_is_value_error), the style argument (ValueError / AttributeError / AssertionError of the style classes: style_rejection_is_foreign), field_func of a "
+                            "callable whose signature inspect cannot read (field_func_unreadable_is_foreign) and an exception raised by the user's field function during validation",
+                            "full-strength 'accepted iff documented' is false of the faithful model for: pixel_agg (names that return a number without reducing: "
+                            "pixel_agg_accepted_non_reductions, failing later inside getBH_level2: pixel_agg_ndim_fails_later), the mode arguments (numbers equal to 1 / 0 pass `in` and are not "
+                            "translated: mode_accepts_undocumented), in_out (validated nowhere: inout_is_validated_nowhere, inout_accepts_undocumented, and read differently by Tetrahedron and "
+                            "TriangularMesh: inout_misspelt_classes_disagree), sumup / squeeze (truth value: flag_accepts_undocumented), the constructor's style argument (stored unexamined, fails "
+                            "at the first access of .style: style_ctor_defers_validation)",
                             "'documented format' in the *_accepts_iff_documented theorems is Spec/ValidSpec.lean; its entry grammar (isEntry) is: numbers (int, float, bool, numpy.bool_, float nan). "
                             "A nan given as a float is accepted everywhere (passes 'no value <= 0', '>= 0' and all five CylinderSegment conditions: cylseg_accepts_nan, scalar_accepts_nan); "
-                            "the empty (0,3) anchor was repaired in /repo (anchor_rejects_empty, anchor_accepts_iff_documented at full strength)",
-                            "observed, not recorded as findings (oracle `observed_not_recorded`, re-evaluated on every run): bad `pixel_agg` raises AttributeError (pinned by "
-                            "tests/test_getBH_level2.py::test_pixel_agg_heterogeneous_pixel_shapes) or TypeError (non-string, 'pi'), 'any'/'all' refused, 'argmax'/'ndim'/'size' accepted; bad `output` raises ValueError "
-                            "(pinned); accepted beyond the documented format: anchor=0j, anchor=False, start=True, angle=[], nan floats in every scalar / vector attribute; refused although "
-                            "arguably documented: degrees=np.True_, start=1.0; getB observers still coerce None / numeric strings (check_format_input_observers, outside attribute assignment)",
-                            "constructor path = setter path (constructors assign through the same setters: valid stream only), and 'no accepted object later fails inside a field computation "
-                            "with an internal error' (check_dimensions / check_excitations, nan dimensions reaching the kernels): oracle only",
-                            "rejected-assignment theorems are about setters of the form validate-then-assign (setAttrWith); that every real setter has this form is regenerated for Sensor.pixel / "
-                            "Sensor.handedness (Attr.skeleton) and observed for the others by the valid stream's state comparison (BaseMagnet.polarization also writes _magnetization)",
+                            "nan dimensions reach the kernels and give nan fields (C15), not an error",
+                            "observed, not recorded as findings (oracle `observed_not_recorded`, re-evaluated on every run): the foreign errors above; accepted beyond the documented format: anchor=0j, "
+                            "anchor=False, start=True, angle=[], nan floats in every scalar / vector attribute; refused although arguably documented: degrees=np.True_, start=1.0; getB observers still "
+                            "coerce None / numeric strings (check_format_input_observers, outside attribute assignment)",
+                            "the four BaseCollection setters (children, sources, sensors, collections) are NOT of the form validate-then-assign: they unlink the old children before the new value can be "
+                            "rejected (collection_setters_change_state_before_rejecting; `c.children = [a, 1]` raises the library's error and leaves c empty) — reported, not repaired; every other "
+                            "setter of the regenerated list is (setters_validate_then_assign_partial), under the classification of its calls stated in Model/CallArgs.lean (SetterForm: which calls can "
+                            "reject the input, which change state, which do neither — e.g. scipy / numpy conversions of already validated data, the low-magnetization warning); style.update inside "
+                            "_validate_style applies earlier keys before a later one is rejected (C20 rejected_update_applies_earlier_keys)",
+                            "constructor path = setter path: by theorem for the regenerated table of every __init__ (ctor_args_keep_their_names, ctor_args_reach_their_setters, "
+                            "ctor_position_orientation_use_setter_validators); the padding logic of _init_position_orientation differs from the two setters' (subject of C09); "
+                            "TriangularMesh vertices / faces have no setter (_input_check, foreign IndexError for bad face indices: observed)",
                             "start / degrees / anchor / angle / axis / orientation / field / output are modelled as the validator functions; that move, rotate*, getB call them on the argument before "
-                            "touching any path is the subject of C09 (path stream incl. rejected calls)"]
+                            "touching any path is the subject of C09 (path stream incl. rejected calls); for getBH_level2 the order of the checks is regenerated (level2_checks_precede_fields): "
+                            "`output` is checked AFTER the field computation, pixel_agg after check_dimensions / check_excitations"]
 
 def replay(ctx, payload):
     import json
